@@ -18,6 +18,11 @@ def demo_cmd(k):
     if '-o ' not in cmd: cmd += ' -o _seed/demo%d.bin' % k
     cmd = cmd.split('&&')[0].strip()
     return cmd
+def run_cmd(k):
+    head = open(os.path.join(seed, 'demo%d.c' % k)).read()[:3000]
+    m = re.search(r'RUN:\s*([^\n]*demo%d[^\n]*)' % k, head)     # e.g. `RUN: valgrind --error-exitcode=42 -q ./demo1` (constant-time demos)
+    if not m: return './_seed/demo%d.bin' % k
+    return re.sub(r'(\./)?(_seed/)?demo%d(\.bin)?(?![\w.])' % k, './_seed/demo%d.bin' % k, m.group(1).strip().rstrip('*/').strip())
 res = {}
 sh('git checkout -- .')
 for k in (1, 2):
@@ -27,7 +32,7 @@ for k in (1, 2):
     dc = demo_cmd(k); r['demo_compile_cmd'] = dc
     c = sh(dc); r['demo_compiles_pristine'] = c.returncode == 0
     if c.returncode != 0: r['demo_compile_err'] = c.stderr[-800:]
-    d0 = sh('./_seed/demo%d.bin' % k, timeout=1800); r['demo_exit_pristine'] = d0.returncode
+    d0 = sh(run_cmd(k), timeout=1800); r['demo_run_cmd'] = run_cmd(k); r['demo_exit_pristine'] = d0.returncode
     a = sh('git apply _seed/change%d.diff' % k); r['applies'] = a.returncode == 0
     if a.returncode == 0:
         b = sh('cmake -G Ninja -B build -S . >/dev/null && cmake --build build 2>&1 | tail -3'); r['builds'] = b.returncode == 0 and 'error' not in b.stdout.lower()
@@ -35,7 +40,7 @@ for k in (1, 2):
         m = re.search(r'(\d+)% tests passed, (\d+) tests failed out of (\d+)', t.stdout)
         r['ctest'] = m.group(0) if m else t.stdout[-300:]
         r['ctest_all_pass'] = bool(m and m.group(2) == '0' and m.group(3) == '317')
-        c = sh(dc); d1 = sh('./_seed/demo%d.bin' % k, timeout=1800)
+        c = sh(dc); d1 = sh(run_cmd(k), timeout=1800)
         r['demo_exit_changed'] = d1.returncode; r['demo_output_changed'] = (d1.stdout + d1.stderr)[-600:]
     sh('git checkout -- .')
     r['confirmed'] = bool(r.get('applies') and r.get('builds') and r.get('ctest_all_pass') and r.get('demo_exit_pristine') == 0 and r.get('demo_exit_changed', 0) != 0)
